@@ -554,6 +554,54 @@ def check_constant_priority(res, which):
         res.violation("C04|get_odesys|substitutions-vs-constants|%s|raises" % which, "%s raised %s: %s" % (which, type(e).__name__, e), case, "EXC %s" % type(e).__name__, None)
 
 
+def check_special_systems(res, which, builder):
+    """two systems at the edge of what the builders take: (a) non-integral active orders (all-integral check off): the
+    right-hand side is N^T r with c**(1/2), c**(3/2); (b) a substance whose key is the reserved word 'time': either refused
+    with ValueError or built with that concentration as a dependent variable of its own (never the independent variable)"""
+    import sympy
+    from chempy import Reaction, ReactionSystem
+    from chempy.kinetics.ode import get_odesys, _create_odesys
+
+    case = dict(layer="H", what="special", which=which, builder=builder)
+    res.states += 1
+    res.transitions += 1
+    res.nontrivial += 1
+    res.evaluations += 1
+    noint = [c for c in Reaction.default_checks if c != "all_integral"]
+    try:
+        if which.startswith("order"):
+            nu = {"order1/2": sympy.Rational(1, 2), "order3/2": sympy.Rational(3, 2), "order0.5": 0.5}[which]
+            ka, kb = (7, 3) if builder == "get" else ("ka", "kb")  # the alternative builder takes named constants only
+            rsys = ReactionSystem([Reaction({"A": nu}, {"B": 1}, ka, checks=noint), Reaction({"B": 2}, {"C": 1}, kb)], "A B C")
+            conc = {"A": 9, "B": 5, "C": 11}
+            r1, r2 = 7 * sympy.Integer(9) ** sympy.nsimplify(nu), 3 * 25
+            exp = {"A": -sympy.nsimplify(nu) * r1, "B": r1 - 2 * r2, "C": r2}
+        else:
+            rsys = ReactionSystem([Reaction({"time": 2}, {"B": 1}, 3 if builder == "get" else "kb")], "time B")
+            conc = {"time": 2, "B": 5}
+            exp = {"time": -24, "B": 12}
+        try:
+            odesys = (get_odesys(rsys, include_params=True) if builder == "get" else _create_odesys(rsys))[0]
+        except ValueError as e:
+            if which == "time-key":
+                res.outcomes["special:%s:refused" % which] += 1
+                return
+            raise
+        bind = {d: conc[n] for d, n in zip(odesys.dep, odesys.names)}
+        bind[odesys.indep] = 1000  # the independent variable must not enter an autonomous right-hand side
+        for sym, pn in zip(odesys.params, odesys.param_names):
+            bind[sym] = {"ka": 7, "kb": 3}.get(pn, sympy.Symbol("UNBOUND_" + str(pn)))
+        got = {n: sympy.nsimplify(sympy.sympify(e).subs(bind)) for n, e in zip(odesys.names, odesys.exprs)}
+        ok = list(odesys.names) == list(rsys.substances) and all(sympy.simplify(got[n] - exp[n]) == 0 for n in exp)
+        res.outcomes["special:%s:%s" % (which, "ok" if ok else "WRONG")] += 1
+        if not ok:
+            res.violation("C04|%s|special-system|%s|rhs-value" % ("get_odesys" if builder == "get" else "_create_odesys", which), "%s on the %s system: f = %s at %r, N^T r = %s" % (
+                builder, which, {k: str(v) for k, v in got.items()}, conc, {k: str(v) for k, v in exp.items()}), case, {k: str(v) for k, v in got.items()}, {k: str(v) for k, v in exp.items()})
+    except Exception as e:
+        res.outcomes["special:%s:raises:%s" % (which, type(e).__name__)] += 1
+        res.violation("C04|%s|special-system|%s|raises" % ("get_odesys" if builder == "get" else "_create_odesys", which), "%s on the %s system raised %s: %s" % (builder, which, type(e).__name__, e), case, "EXC %s" % type(e).__name__, None)
+
+
 def check_partial_names(res, kind, nnamed):
     """rate expressions with several arguments of which only the leading `nnamed` carry names (unique_keys is aligned with
     the beginning of args): kept as free parameters, exactly the named ones become parameters (defaults: the written values)
@@ -615,6 +663,10 @@ def run_chunk(chunk, tier):
     t = _tier(tier)
     if chunk[0] == "H":
         i = chunk[1]
+        if i == 2:
+            for which in ("order1/2", "order3/2", "order0.5", "time-key"):
+                for builder in ("get", "create"):
+                    check_special_systems(res, which, builder)
         if i == 1:
             for kind, nargs in (("Arrhenius", 2), ("Eyring", 3)):
                 for nnamed in range(nargs + 1):
@@ -661,6 +713,8 @@ def replay(case):
             check_symbols(res, tuple(case["idxs"]), tuple(case["perm"]))
         elif case.get("what") == "constants":
             check_constant_priority(res, case["which"])
+        elif case.get("what") == "special":
+            check_special_systems(res, case["which"], case["builder"])
         elif case.get("what") == "partial-names":
             check_partial_names(res, case["kind"], case["nnamed"])
         else:
